@@ -173,6 +173,11 @@ CtorSpNegStimuli ==
 ModeArgStimuli ==
   {St("k_mode_arg", [N |-> 3, op |-> o, mode |-> m], IF m \in 0..2 THEN "ok" ELSE "mode_in_range") :
      o \in {"normalize_wf", "normalize_mode", "redistribute", "arrange_wf"}, m \in {0, 2, 3, 5, 0 - 1, 0 - 3}}
+ExtractStimuli ==
+  {St("k_extract", [R |-> 3, idx |-> i, form |-> f], "?") :
+     i \in {<<0>>, <<2>>, <<1, 0>>, <<0, 1, 2>>, <<3>>, <<0, 3>>, <<0 - 1>>, <<0, 0 - 1>>, <<0 - 3>>, <<0 - 4, 1>>, <<>>, <<0, 1, 2, 0>>},
+     f \in {"list", "tuple", "array"}}
+  \cup {St("k_extract", [R |-> 3, idx |-> <<i>>, form |-> "int"], "?") : i \in {0, 2, 3, 0 - 1, 0 - 3}}
 \* the weights pseudo-mode -1 together with factor modes: data short by less than one block, or sufficient
 UpdateWeightsStimuli ==
   {St("k_update", [rows |-> <<2, 3, 2>>, R |-> 2, modes |-> m, datalen |-> d],
@@ -217,7 +222,7 @@ All ==
         ELSE {})
   \cup (IF "more" \in Fams THEN ArrangeStimuli \cup UpdateStimuli \cup SpReshapeStimuli \cup CtorTenmatStimuli
                                \cup CtorSptenmatStimuli \cup CtorSpNegStimuli ELSE {})
-  \cup (IF "args" \in Fams THEN ModeArgStimuli \cup UpdateRepStimuli \cup UpdateWeightsStimuli \cup ReconstructStimuli \cup TuckerRankStimuli
+  \cup (IF "args" \in Fams THEN ModeArgStimuli \cup ExtractStimuli \cup UpdateRepStimuli \cup UpdateWeightsStimuli \cup ReconstructStimuli \cup TuckerRankStimuli
                                \cup OptdimsStimuli \cup CtorSptenmatNegStimuli \cup SymGroupStimuli \cup NvecsArgStimuli ELSE {})
 
 \* keep the well-formed requests and those violating exactly one clause
